@@ -41,7 +41,12 @@ def population(hv, tier, sd, pops, per_pop):
     for i, c in enumerate(cases):
         c = dict(c)
         if "w" not in c:
-            c["w"] = rng.choice([64, 64, 64, 64, 64, 32]) if c["pop"] == "L" else rng.choice([8, 8, 16, 32, 64])
+            if c["pop"] == "L":
+                c["w"] = rng.choice([64, 64, 64, 64, 64, 32])
+            elif c["pop"] == "D":        # wrap-around cycles are only short enough to prove at 8 bit
+                c["w"] = rng.choice([8, 8, 8, 8, 8, 8, 16, 32, 64])
+            else:
+                c["w"] = rng.choice([8, 8, 16, 32, 64])
         c["id"] = "%s%d" % (c["pop"], i)
         out.append(c)
     return out
@@ -380,7 +385,10 @@ def c07(tier):
         for b in BUDGETS:
             if b == UNLIMITED and c["id"] not in hid:
                 continue                      # an unlimited budget on a divergent program never returns (C05)
-            runs += config_runs({"mode": "limited", "budget": b})
+            plan = {"mode": "limited", "budget": b}
+            if c["id"] not in hid and b >= 100:
+                plan.update({"outFail": 64, "inFail": 64})   # the environment bounds what a diverger can emit
+            runs += config_runs(plan)
         return runs
 
     executed = bf.execute(hv, halts + divs, runs_for)
@@ -401,4 +409,193 @@ def c07(tier):
     return rep.finish()
 
 
-CHECKS = {"C01": c01, "C02": c02, "C03": c03, "C04": c04, "C07": c07, "C08": c08}
+# ------------------------------------------------------------------ C05
+def c05(tier):
+    rep = Report("C05", "model_checking", tier)
+    bins = build_harness(("release",))
+    hv = bins["release"]
+    sd = seed()
+    per = {"D": 1200, "R": 250, "E": 6000, "M": 600, "S": 300} if tier == "quick" else \
+          {"D": 4000, "R": 400, "E": 60000, "M": 8000, "S": 3000, "rnd": 3000}
+    pops, per = dev_pops(["D", "R", "E", "M", "S", "rnd"], per)
+    cases = override_cases() or population(hv, tier, sd, pops, per)
+    refs = pool.simple_requests(hv, [{"op": "ref", "id": c["id"], "prog": c["prog"], "w": c["w"],
+                                      "input": c["input"], "maxSteps": 5000, "maxEv": 250} for c in cases])
+    rng = random.Random(sd + 7)
+    divs = [c for c, r in zip(cases, refs) if r and r.get("class") == "diverges"]
+    halts = [c for c, r in zip(cases, refs) if r and r.get("class") == "halts" and r.get("iters", 0) >= 1]
+    rng.shuffle(divs)
+    rng.shuffle(halts)
+    nd, nh = (700, 400) if tier == "quick" else (8000, 6000)
+    divs, halts = divs[:nd], halts[:nh]
+    hid = {c["id"] for c in halts}
+    # sample of divergent cases that are really left running under execute()
+    live = divs[: (16 if tier == "quick" else 160)]
+    liveid = {c["id"] for c in live}
+    SINK = {"outFail": 64, "inFail": 64}          # the environment, not the program, ends a printing diverger
+
+    def runs_for(c):
+        if c["id"] in hid:                         # terminating side: must come back, with the complete log
+            return config_runs({"mode": "exec"})
+        runs = config_runs(dict({"mode": "limited", "budget": 1000}, **SINK))
+        runs += config_runs(dict({"mode": "limited", "budget": 10 ** 6}, **SINK))
+        if c["id"] in liveid:
+            runs += config_runs(dict({"mode": "exec", "stream": 1, "watchdog": 2.5, "expectHang": 1}, **SINK))
+        return runs
+
+    executed = bf.execute(hv, halts + divs, runs_for)
+    still_running = sum(1 for e in executed for r in e[2] if r is not None and "hung" in r)
+    rep.count("cases_divergent", len(divs))
+    rep.count("cases_halting", len(halts))
+    rep.count("runs", sum(len(e[1]) for e in executed))
+    rep.count("unbounded_runs_still_running_when_killed", still_running)
+    rep.coverage["distinct_nontrivial"] = len(divs) + len(halts)
+    rep.coverage["rule"] = ("divergent side: programs whose canonical run repeats a machine state (pre-selected "
+                            "natively, proved by BF.tla's snapshot during validation: populations D, R, E, M); each "
+                            "runs on inplace and irint/bcint/jit levels 0-3 with execute_limited at 10^3 and 10^6 (the "
+                            "sink refuses the 65th output / input request, so printing divergers are stopped by the "
+                            "environment) and a sample through execute() under a watchdog (must still be running; "
+                            "its streamed log must be a prefix of the divergent run); terminating side: halting "
+                            "cases with >= 1 loop iteration must return from execute() on every backend; every "
+                            "recording is validated by TLC (BFTrace)")
+    judged = adjudicate(rep, "C05", bins, "release", executed)
+    settle(rep, "C05", bins, judged, shrink=False)
+    return rep.finish()
+
+
+# ------------------------------------------------------------------ C10
+def c10(tier):
+    rep = Report("C10", "model_checking", tier)
+    bins = build_harness(("release", "debug"))
+    hv = bins["release"]
+    per = {"E": 6000, "S": 800, "T": 400, "rnd": 600, "N": 150, "R": 200} if tier == "quick" else \
+          {"E": 60000, "S": 10000, "T": 4000, "rnd": 8000, "N": 3000, "R": 400, "M": 4000}
+    cases = halting_cases(rep, "C10", hv, tier, ["E", "S", "T", "rnd", "N", "R", "M"], per,
+                          want=900 if tier == "quick" else 20000)
+
+    def runs_for(c):
+        f = c["facts"]
+        L = len(c["prog"])
+        region = [f["lo"] - L, f["hi"] + L + 1]
+        runs = []
+        for b in ("bcint", "jit"):
+            for l in range(4):
+                for a in ("guardl", "guardr"):
+                    runs.append({"backend": b, "level": l, "mode": "unsafe", "pregrow": region, "alloc": a})
+        return runs
+
+    judged = []
+    for prof in ("release", "debug"):
+        executed = bf.execute(bins[prof], cases, runs_for)
+        rep.count("unchecked_runs", sum(len(e[1]) for e in executed))
+        judged += adjudicate(rep, "C10", bins, prof, executed)
+    rep.coverage["distinct_nontrivial"] = sum(1 for c in cases if c["facts"]["hi"] - c["facts"]["lo"] >= 1
+                                              and c["facts"]["steps"] > 5)
+    rep.coverage["rule"] = ("cases halting by BF.tla, whose pointer excursion [lo,hi] comes from the specification's "
+                            "run; the tape is pre-grown to exactly [lo-L, hi+L] (L = program length), then "
+                            "execute_unsafe runs on bcint and jit at levels 0-3 with the tape flush against a guard "
+                            "page on the left and on the right, in the release and the debug build; the log is "
+                            "validated by TLC (BFTrace), any fault is a rejected trace; non-trivial = the pointer "
+                            "moves and the run has more than 5 steps")
+    settle(rep, "C10", bins, judged, shrink=False)
+    return rep.finish()
+
+
+# ------------------------------------------------------------------ C06 (executable half)
+def c06_runs(tier, rep, bins):
+    hv = bins["release"]
+    per = {"T": 1500, "S": 600, "N": 150, "rnd": 400, "E": 6000} if tier == "quick" else \
+          {"T": 20000, "S": 8000, "N": 3000, "rnd": 6000, "E": 60000, "M": 4000}
+    sd = seed()
+    pops, per = dev_pops(["T", "S", "N", "rnd", "E", "M"], per)
+    cases = override_cases() or population(hv, tier, sd, pops, per)
+
+    def runs_for(c):
+        runs = []
+        for a in ("guardl", "guardr"):
+            runs += config_runs({"alloc": a})
+        return runs
+
+    judged = []
+    for prof in ("release", "debug"):
+        executed = bf.execute(bins[prof], cases, runs_for, screen=SCREEN)
+        halting = [e for e in executed if e[3].get("refclass") == "halts"]
+        rep.count("guarded_runs", sum(len(e[1]) for e in halting))
+        dis = [e for e in halting if not e[3].get("agree")]
+        agr = [e for e in halting if e[3].get("agree")]
+        # roamers are always adjudicated; the rest is sampled
+        roam = [e for e in agr if e[0]["pop"] == "T" or e[3].get("hi", 0) - e[3].get("lo", 0) > 64]
+        other = [e for e in agr if e not in roam]
+        random.Random(sd).shuffle(other)
+        chosen = dis + roam[: (1500 if tier == "quick" else 30000)] + other[: (800 if tier == "quick" else 20000)]
+        rep.count("distinct_nontrivial", sum(1 for e in chosen if e[3].get("hi", 0) - e[3].get("lo", 0) >= 8))
+        rep.count("cases_moving_more_than_1000_cells",
+                  sum(1 for e in chosen if e[3].get("hi", 0) - e[3].get("lo", 0) >= 1000))
+        judged += adjudicate(rep, "C06", bins, prof, chosen)
+    return judged
+
+
+# ------------------------------------------------------------------ C17 (executable half)
+def c17_runs(tier, rep, bins):
+    hv = bins["release"]
+    sd = seed()
+    per = {"T": 500, "S": 150} if tier == "quick" else {"T": 5000, "S": 1500, "N": 300}
+    pops, per = dev_pops(["T", "S", "N"], per)
+    cases = override_cases() or population(hv, tier, sd, pops, per)
+    refs = pool.simple_requests(hv, [{"op": "ref", "id": c["id"], "prog": c["prog"], "w": c["w"],
+                                      "input": c["input"], "maxSteps": 5000, "maxEv": 250} for c in cases])
+    cases = [c for c, r in zip(cases, refs) if r and r.get("class") == "halts"]
+    random.Random(sd).shuffle(cases)
+    cases = cases[: (150 if tier == "quick" else 2500)]
+    ks = list(range(8))
+
+    def runs_for(c):
+        runs = []
+        for (b, l) in [("inplace", 0), ("irint", 2), ("bcint", 0), ("bcint", 2), ("jit", 0), ("jit", 2)]:
+            for k in ks:
+                runs.append({"backend": b, "level": l, "alloc": "fail", "failK": k, "failMin": 0, "stream": 1})
+        return runs
+
+    executed = bf.execute(hv, cases, runs_for)
+    refused = sum(1 for e in executed for r in e[2] if r is not None and
+                  (r.get("allocFailed", 0) > 0 or "died" in r))
+    rep.count("runs_with_injected_allocation_failure", sum(len(e[1]) for e in executed))
+    rep.count("runs_in_which_the_refusal_was_reached", refused)
+    return adjudicate(rep, "C17", bins, "release", executed), cases
+
+
+def c06(tier):
+    rep = Report("C06", "model_checking", tier)
+    bins = build_harness(("release", "debug"))
+    judged = c06_runs(tier, rep, bins)
+    rep.coverage["rule"] = ("cases: tape roamers (far moves of up to 700 cells per step, movers, scans over prepared "
+                            "runs, revisits of old cells after growth in the other direction, loop bodies touching "
+                            "both sides while moving) plus structured / network / random / exhaustive programs; "
+                            "each runs on inplace and irint/bcint/jit at levels 0-3 with every allocation made "
+                            "during execution placed flush against a PROT_NONE page on the left and, in a second "
+                            "run, on the right (freed regions stay inaccessible), in the release and the debug "
+                            "build; any fault and any log that TLC (BFTrace) rejects is a violation; non-trivial = "
+                            "pointer excursion of at least 8 cells")
+    rep.assumptions.append("an access outside the owned allocation by less than the distance to the guard page on "
+                           "the non-flush side is only caught through its effect on the event log")
+    settle(rep, "C06", bins, judged, shrink=False)
+    return rep.finish()
+
+
+def c17(tier):
+    rep = Report("C17", "fault_enumeration", tier)
+    bins = build_harness(("release",))
+    judged, cases = c17_runs(tier, rep, bins)
+    rep.coverage["evaluations"] = rep.coverage.get("runs_with_injected_allocation_failure", 0)
+    rep.coverage["distinct_nontrivial"] = len(cases)
+    rep.coverage["rule"] = ("halting roamer / structured programs x {inplace, irint-O2, bcint-O0/O2, jit-O0/O2} x "
+                            "which allocation request made during execution is refused (1st..8th); the outcome "
+                            "(streamed event log + how the process ended) is validated by TLC (BFTrace): ending "
+                            "through SIGABRT or a panic after the refusal with a prefix of the canonical log is "
+                            "accepted, SIGSEGV/SIGBUS, a normal return after a refused request, or any event that "
+                            "is not canonical is rejected")
+    settle(rep, "C17", bins, judged, shrink=False)
+    return rep.finish()
+
+
+CHECKS = {"C01": c01, "C02": c02, "C03": c03, "C04": c04, "C05": c05, "C06": c06, "C07": c07, "C17": c17, "C08": c08, "C10": c10}
